@@ -183,6 +183,11 @@ func simplify(t *Term) *Term {
 					}
 				}
 				// field absent from a struct literal: zero value
+				if b, ok := typeUnderlyingBasic(t.Typ); ok && b.Kind() == types.Bool {
+					return &Term{At: "#false", Typ: t.Typ}
+				} else if ok && b.Info()&types.IsInteger != 0 {
+					return &Term{At: "#0", Typ: t.Typ}
+				}
 				return &Term{At: "zero", Typ: t.Typ}
 			}
 			if base.Op == "&" && len(base.A) == 1 { // (&x).F
@@ -193,6 +198,8 @@ func simplify(t *Term) *Term {
 				// a field of the zero value of a struct is the zero value of the field
 				if b, ok := typeUnderlyingBasic(t.Typ); ok && b.Kind() == types.Bool {
 					return &Term{At: "#false", Typ: t.Typ}
+				} else if ok && b.Info()&types.IsInteger != 0 {
+					return &Term{At: "#0", Typ: t.Typ}
 				}
 				if t.Typ != nil {
 					return &Term{At: "zero", Typ: t.Typ}
